@@ -1,4 +1,4 @@
-From GD Require Import C12.Fs C12.FsLemmas C12.FlushProto C18.Append.
+From GD Require Import C12.Fs C12.FsLemmas C12.FlushProto C18.Append C18.Sie.
 Require Import ExtrOcamlBasic.
 Extraction Language OCaml.
-Extraction "model.ml" nframes frame writer_trace content_at crash rd_read empty_state.
+Extraction "model.ml" nframes frame writer_trace content_at crash rd_read empty_state sie_observed.
